@@ -814,7 +814,11 @@ class TransferManager(BaseManager):
             was received
         :param request: transfer request object for the given transfer
         """
-        await transfer.state.initialize()
+        if not await transfer.state.initialize():
+            # The transfer got aborted, paused, ... between the creation of this
+            # task and the moment the task got hold of the state of the transfer
+            logger.debug("not initializing download, state does not allow it : %s", transfer)
+            return
 
         transfer.filesize = request.filesize
 
@@ -909,7 +913,11 @@ class TransferManager(BaseManager):
            handled internally by this method
         8. Report upload speed to the server : :class:`SendUploadSpeed`
         """
-        await transfer.state.initialize()
+        if not await transfer.state.initialize():
+            # The transfer got aborted, paused, ... between the creation of this
+            # task and the moment the task got hold of the state of the transfer
+            logger.debug("not initializing upload, state does not allow it : %s", transfer)
+            return
 
         ticket = next(self._ticket_generator)
 
